@@ -7,6 +7,7 @@ import (
 	"go/token"
 	"go/types"
 	"math/big"
+	"sort"
 	"strings"
 
 	"golang.org/x/tools/go/ssa"
@@ -45,10 +46,12 @@ func (e *Enc) valOf(v ssa.Value) Val {
 		name := c.Name()
 		if c.Pkg != e.p.SSAPkg {
 			name = c.Pkg.Pkg.Name() + "." + c.Name()
+			e.p.mu.Lock()
 			if e.p.externGlobals == nil {
 				e.p.externGlobals = map[string]*ssa.Global{}
 			}
 			e.p.externGlobals[name] = c
+			e.p.mu.Unlock()
 		}
 		return Val{Addr: &Addr{Kind: "global", Key: "G|" + name, Elem: derefType(c.Type())}, Typ: c.Type()}
 	case *ssa.Function:
@@ -514,6 +517,8 @@ func (e *Enc) encodeAlloc(x *ssa.Alloc) {
 }
 
 func (e *Enc) registerKey(k string) {
+	e.p.mu.Lock()
+	defer e.p.mu.Unlock()
 	if e.p.allKeys == nil {
 		e.p.allKeys = KeySet{}
 	}
@@ -541,6 +546,8 @@ func (e *Enc) encodeFieldAddr(x *ssa.FieldAddr) {
 		e.vals[x] = Val{Addr: &Addr{Kind: "sub", Outer: outer, Struct: st, Field: x.Field, Elem: ft}, Typ: x.Type()}
 		return
 	}
+	// nil dereferences are not an obligation class (DESIGN 3.4-1): the dereferenced pointer is assumed non-nil
+	e.assume(Ne(base.T, IntLit(0)))
 	e.vals[x] = Val{Addr: &Addr{Kind: "field", Base: base.T, Struct: st, Field: x.Field, Elem: ft}, Typ: x.Type()}
 }
 
@@ -610,7 +617,8 @@ func (e *Enc) encodeMapUpdate(x *ssa.MapUpdate) {
 	m := e.termOf(x.Map)
 	k := e.termOf(x.Key)
 	v := e.termOf(x.Value)
-	e.oblige("nilmap", "", x.Pos(), Ne(m, IntLit(0)), nil, "assignment to entry in nil map")
+	// writes to a nil map belong to the nil-dereference class (assumed away, DESIGN 3.4-1)
+	e.assume(Ne(m, IntLit(0)))
 	e.frameObligation(x, "mapupdate", e.p.mapKey(mt), m, x.Pos())
 	mk := e.p.mapKey(mt)
 	hk, vk := mapHasKey(mk), mapValKey(mk)
@@ -1124,7 +1132,13 @@ func (e *Enc) implements(dyn Term, iface types.Type) Term {
 	name := "impl_" + sanitize(e.p.relTypeString(iface))
 	e.declareFun(name, []Sort{SInt}, SBool)
 	it := iface.Underlying().(*types.Interface)
-	for id, t := range e.knownTypeIDs {
+	var ids []int
+	for id := range e.knownTypeIDs {
+		ids = append(ids, id)
+	}
+	sort.Ints(ids)
+	for _, id := range ids {
+		t := e.knownTypeIDs[id]
 		key := fmt.Sprintf("%s/%d", name, id)
 		if e.implDecl[key] {
 			continue
